@@ -301,6 +301,33 @@ __xml_namespace__ = "https://example.com/aasv/0/1"
 '''
 
 
+_BSL = "\\"  # a single backslash
+
+#: Texts for the string literals (no NUL and no lone surrogate: the front end / the Go generator refuse them).
+NASTY_LITERALS: List[str] = [
+    'say "hi" */ /* ' + _BSL,
+    "it's `x` ${y} " + _BSL + "u12 " + _BSL + "users",
+    "L1\nL2\rL3\u2028L4\u2029L5\x85L6\x0bL7\x0cL8\x1cL9\x1dL10\x1eL11",
+    '"""',
+    "'''",
+    _BSL + '"',
+    _BSL + "'",
+    "tab\t\x01\x7f\ufffe\x1b[0m",
+    "%s {0} {{ %d $x #{y}",
+    "?>]]><!-- <a> &amp;",
+    _BSL + "N{DASH} " + _BSL + "x41 " + _BSL + "101",
+    "a" + _BSL + "\nb",
+    "*/",
+    "// not a comment",
+    '""""',
+    "ends in a backslash" + _BSL,
+    'ends in a quote"',
+    "ends in an apostrophe'",
+    "\u00e9 \U0001f600 astral",
+    "??/ trigraph ??)",
+]
+
+
 def _shape_models() -> List[Tuple[str, str]]:
     """Small complete meta-models (seed independent) whose *structure* selects the branches of the code emitters.
 
@@ -361,6 +388,46 @@ def _shape_models() -> List[Tuple[str, str]]:
             + cls("Holder", None, [], [("nothing", "Abstract_nothing"), ("code", "Code"), ("codes", "Optional[List[Hardly_something]]")]),
         )
     )
+    # Constant sets at their smallest and per type of the items: a set WITHOUT items (the emitters join the items with
+    # ",\n" and append a trailing comma: Go wrote ``{\n\t,\n}``), one and two items of every primitive type (the Go map
+    # literal needs ``key: struct{}{}`` for every type) and of an enumeration; the primitive constants.
+    r.append(
+        (
+            "constant-sets",
+            _MODEL_HEADER
+            + 'class Kind(Enum):\n    """Represent a kind."""\n\n    Only = "only"\n\n    Other = "other"\n\n\n'
+            + cls("Something", None, [], [("kind", "Optional[Kind]")])
+            + 'No_strings: Set[str] = constant_set(values=[], description="Hold no strings.")\n\n'
+            + 'No_kinds: Set[Kind] = constant_set(values=[], description="Hold no kinds.")\n\n'
+            + 'No_ints: Set[int] = constant_set(values=[])\n\n'
+            + 'One_string: Set[str] = constant_set(values=["a"], description="Hold a string.")\n\n'
+            + 'Two_strings: Set[str] = constant_set(values=["a", "b\\\\"])\n\n'
+            + 'One_kind: Set[Kind] = constant_set(values=[Kind.Only])\n\n'
+            + 'Two_kinds: Set[Kind] = constant_set(values=[Kind.Only, Kind.Other], description="Hold kinds.")\n\n'
+            + 'One_int: Set[int] = constant_set(values=[1], description="Hold an integer.")\n\n'
+            + 'Two_ints: Set[int] = constant_set(values=[1, 2])\n\n'
+            + 'One_bool: Set[bool] = constant_set(values=[True], description="Hold a boolean.")\n\n'
+            + 'Two_bools: Set[bool] = constant_set(values=[True, False])\n\n'
+            + 'One_float: Set[float] = constant_set(values=[1.5], description="Hold a float.")\n\n'
+            + 'Two_floats: Set[float] = constant_set(values=[1.5, 2.0])\n\n'
+            + 'An_int: int = constant_int(value=3, description="Hold an int.")\n\n'
+            + 'A_bool: bool = constant_bool(value=False)\n\n'
+            + 'A_float: float = constant_float(value=0.5)\n\n'
+            + 'A_text: str = constant_str(value="say \\"hi\\" */ \\\\", description="Hold a text.")\n',
+        )
+    )
+    # Texts which reach the string literals of the targets: invariant messages, string constants, items of a constant set
+    # (emitted by string_literal of every target and then indented together with the code around them: a line boundary of
+    # ``str.splitlines`` inside a literal was once taken for the end of a line of the code).
+    lines = [
+        "@invariant(lambda self: len(self.text) > 0, %s)" % lit(text) for text in NASTY_LITERALS
+    ]
+    lines += ["class Something(DBC):", '    """Represent something."""', "", "    text: str", '    """Hold text."""', ""]
+    lines += ["    def __init__(self, text: str) -> None:", "        self.text = text", "", ""]
+    for k, text in enumerate(NASTY_LITERALS):
+        lines += ["Text_%d: str = constant_str(value=%s, description=%s)" % (k, lit(text), lit("Hold the text %d." % k)), ""]
+    lines += ["All_texts: Set[str] = constant_set(values=[%s])" % ", ".join(lit(text) for text in NASTY_LITERALS), ""]
+    r.append(("nasty-literals", _MODEL_HEADER + "\n".join(lines)))
     return r
 
 
@@ -455,7 +522,11 @@ def balance(
     The kinds: ``unterminated-comment``, ``unterminated-string``, ``unbalanced-bracket``,
     ``stray-closer``, ``illegal-char``, ``illegal-unicode-escape`` (Java only), ``comment-splice`` (C++ only),
     ``comment-line-terminator`` (a line comment ended by a line terminator other than LF / CR LF),
-    ``stray-comment-closer`` (``*/`` in the code).
+    ``stray-comment-closer`` (``*/`` in the code), ``stray-comma`` (a comma directly after an opening
+    bracket or after another comma where the language admits no empty element: Go everywhere, C++ and
+    C# after ``{`` / ``(``, Java after ``(``), ``map-literal-missing-key`` (Go: an element of a composite
+    literal whose type is spelled ``map[…]…`` right before the brace has no ``key:``; the Go
+    specification, section Composite literals, demands a key for every element of a map literal).
 
     If ``info`` is given, ``info["skeleton"]`` is set to the code without the comments and with
     the white space collapsed.
@@ -520,7 +591,8 @@ def balance(
                 continue
             if ch == quote:
                 return k + 1
-            if ch in nl:
+            if ch in nl and not (lang == "ts" and ch in "\u2028\u2029"):
+                # ECMAScript since ES2019 admits U+2028 and U+2029 inside a string literal.
                 report("unterminated-string", start, "%s broken by a line terminator" % what)
                 return k
             k += 1
@@ -558,6 +630,71 @@ def balance(
 
     conditionals: List[Dict[str, Any]] = []  # the open ``#if`` sections of C++
     comment_spans: List[Tuple[int, int]] = []
+
+    # The previous significant character of the code (no blank, no comment): "" at the start,
+    # '"' after any literal.
+    prev_code = ""
+    # Openers after which a comma is an error.
+    no_comma_after = {
+        "go": "{([,", "cpp": "{(,", "cs": "{(", "java": "(", "ts": "",
+    }[lang]
+    # Go: the open map literals: position of the brace -> [has the current element a token?, a colon?]
+    map_literals: Dict[int, List[bool]] = {}
+    # Go: the state of the recogniser of ``map[K]V{``: None, or the stack depth at ``map`` + what is expected
+    map_type: Optional[Dict[str, Any]] = None
+
+    def note_code(ch: str, pos: int) -> None:
+        """Record the significant character ``ch`` of the code at ``pos`` (before the brackets are updated)."""
+        nonlocal prev_code, map_type
+        if ch == "," and no_comma_after and (prev_code != "" and prev_code in no_comma_after):
+            report("stray-comma", pos, "a comma directly after %r" % prev_code)
+        if lang == "go":
+            top_pos = stack[-1][1] if stack else -1
+            element = map_literals.get(top_pos)
+            if element is not None:
+                if ch == ",":
+                    if element[0] and not element[1]:
+                        report("map-literal-missing-key", pos, "element of a map literal without a key")
+                    element[0] = element[1] = False
+                elif ch == "}":
+                    if element[0] and not element[1]:
+                        report("map-literal-missing-key", pos, "element of a map literal without a key")
+                elif ch == ":":
+                    element[1] = True
+                else:
+                    element[0] = True
+        prev_code = ch
+
+    def go_map_literal_opens(pos: int) -> bool:
+        """Tell whether the ``{`` at ``pos`` opens a composite literal of a type spelled ``map[K]V``.
+
+        Looks back over the type: ``V`` is a (qualified) name, ``struct{}``, ``interface{}``, possibly
+        behind ``*`` / ``[]``; ``K`` is anything bracket-balanced. The literal must stand where an
+        expression can start (after ``=``, ``(``, ``,``, ``:``, ``{``, ``return`` ...), not after ``)``
+        (the result type of a function) nor after a name (a declaration ``x map[K]V``).
+        """
+        if "map[" not in text[max(0, pos - 300) : pos]:
+            return False
+        head = text[max(0, pos - 300) : pos]
+        m = re.search(
+            r"(?P<before>[^\s]?)(?P<blank>\s*)\bmap\[(?P<key>[^\[\]]*(?:\[[^\[\]]*\])?[^\[\]]*)\]"
+            r"(?:\*|\[\])*(?:struct\s*\{\s*\}|interface\s*\{\s*\}|[A-Za-z_][A-Za-z_0-9.]*)[ \t]*$",
+            head,
+        )
+        if m is None:
+            return False
+        before = m.group("before")
+        if before == "":
+            return True
+        if before == ")" or before == "]":
+            return False
+        if is_ident_char(before):
+            k = m.start("before") + 1
+            w = k
+            while w > 0 and is_ident_char(text[w - 1]):
+                w -= 1
+            return text[w:k] in ("return", "range", "case")
+        return True
 
     i = 0
     at_line_start = True  # only blanks since the last line terminator
@@ -667,6 +804,8 @@ def balance(
         # endregion
 
         # region Literals
+        if c in "\"'`" or (c == "/" and lang == "ts"):
+            note_code('"' if c != "/" else "/", i)
         if c == '"':
             if lang == "cs":
                 # Verbatim: @"..." / $@"..." / @$"..."
@@ -802,6 +941,8 @@ def balance(
             continue
         # endregion
 
+        note_code(c, i)
+
         if c == "*" and text[i + 1 : i + 2] == "/" and text[i + 1 : i + 3] not in ("/*", "//"):
             report("stray-comment-closer", i, "'*/' in the code")
             i += 2
@@ -809,6 +950,8 @@ def balance(
 
         # region Brackets
         if c in _OPEN:
+            if lang == "go" and c == "{" and go_map_literal_opens(i):
+                map_literals[i] = [False, False]
             stack.append((c, i))
             i += 1
             continue
